@@ -1,7 +1,7 @@
 (* C14 - final statements (with proofs) re-exported verbatim by Props/Properties_C14.v *)
 From Coq Require Import NArith ZArith List Bool Lia.
 From ZV.Gen Require Import Gen_C14.
-From ZV.Mem Require Import Cwksp CwkspProofs.
+From ZV.Mem Require Import Cwksp CwkspProofs Estimate EstimateProofs LevelDefs LevelProofs DBuffers DBuffersProofs.
 Import ListNotations.
 Local Open Scope N_scope.
 
@@ -31,3 +31,123 @@ Proof.
   pose proof (cwksp_fit rz start size static ops WF HC) as H. cbv zeta in H. fold w0 in H.
   destruct (run rz w0 ops) as [w' log]. destruct H as (A & _ & L). split; assumption.
 Qed.
+
+(* a static context of ZSTD_estimateCCtxSize(L) bytes runs ZSTD_compressCCtx at every covered level l <= L,
+   for every source size, at every 8-aligned address *)
+Lemma levels_static_oneshot_ok_l :
+  forall rz start size l L s,
+    sweep_oneshot rz = true ->
+    level_covered l L -> s <= UNKNOWN -> start mod 8 = 0 ->
+    estimateCCtxSize rz L <= size ->
+    exists w log, static_simple_session rz start size l s = SessDone w log /\
+                  allocFailed w = false /\ ws_start w = start /\ ws_end w = start + size /\
+                  Forall (entry_in start size) log.
+Proof.
+  intros rz start size l L s SO HC Hs Ha Hsz.
+  destruct (estimate_covers_levels_oneshot rz l L s SO HC Hs) as [N1 _].
+  unfold static_simple_session, simple_params.
+  apply estimate_covers_reservation_l; try assumption.
+  - discriminate.
+  - intros _. reflexivity.
+  - unfold need_simple, session_need, simple_params in N1. lia.
+Qed.
+
+(* same for ZSTD_compress2 with only the level set *)
+Lemma levels_static_compress2_ok_l :
+  forall rz start size l L s,
+    sweep_oneshot rz = true ->
+    level_covered l L -> s <= UNKNOWN -> start mod 8 = 0 ->
+    estimateCCtxSize rz L <= size ->
+    exists w log, static_stream2_session rz start size (level_pp l) s true = SessDone w log /\
+                  allocFailed w = false /\ ws_start w = start /\ ws_end w = start + size /\
+                  Forall (entry_in start size) log.
+Proof.
+  intros rz start size l L s SO HC Hs Ha Hsz.
+  destruct (estimate_covers_levels_oneshot rz l L s SO HC Hs) as [_ N2].
+  unfold static_stream2_session, stream2_params. cbn [negb andb p_extSeq level_pp p_maxBlockSize p_ldm p_row].
+  apply estimate_covers_reservation_l; try assumption.
+  - discriminate.
+  - intros _. reflexivity.
+  - unfold need_compress2, session_need, stream2_params in N2.
+    cbn [p_extSeq level_pp p_maxBlockSize p_ldm p_row] in N2. lia.
+Qed.
+
+(* a static CStream of ZSTD_estimateCStreamSize(L) bytes runs buffered ZSTD_compressStream2 at every covered level *)
+Lemma levels_static_stream_ok_l :
+  forall rz start size l L s,
+    sweep_stream rz = true ->
+    level_covered l L -> s <= UNKNOWN -> start mod 8 = 0 ->
+    estimateCStreamSize rz L <= size ->
+    exists w log, static_stream2_session rz start size (level_pp l) s false = SessDone w log /\
+                  allocFailed w = false /\ ws_start w = start /\ ws_end w = start + size /\
+                  Forall (entry_in start size) log.
+Proof.
+  intros rz start size l L s SS HC Hs Ha Hsz.
+  pose proof (estimate_covers_levels_stream rz l L s SS HC Hs) as N1.
+  unfold static_stream2_session, stream2_params.
+  cbn [negb andb p_extSeq level_pp p_maxBlockSize p_ldm p_row p_inBuffered p_outBuffered].
+  apply estimate_covers_reservation_l; try assumption.
+  - discriminate.
+  - intros _. reflexivity.
+  - unfold need_stream, session_need, stream2_params in N1.
+    cbn [p_extSeq level_pp p_maxBlockSize p_ldm p_row] in N1. lia.
+Qed.
+
+(* CCtx_params estimators, tier-consistent case (source size unknown to the reset): the estimate is the need,
+   hence a static context of the estimated size completes the reset *)
+Lemma ccparams_static_unknown_size_ok_l :
+  forall rz start size p e,
+    p_nbWorkers p = 0 -> start mod 8 = 0 ->
+    (ldm_enabled (ldm_with_enable (p_ldm p)
+        (resolveEnableLdm (ldm_enable (p_ldm p)) (getCParamsFromCCtxParams p UNKNOWN 0 CpmNoAttachDict))) = true ->
+     ldm_user_ok (p_ldm p) = true) ->
+    estimateCCtxSize_usingCCtxParams rz p = Some e -> e <= size ->
+    exists w log, static_stream2_session rz start size p UNKNOWN true = SessDone w log /\
+                  allocFailed w = false /\ ws_start w = start /\ ws_end w = start + size /\
+                  Forall (entry_in start size) log.
+Proof.
+  intros rz start size p e Hw Ha Hl He Hsz.
+  rewrite (ccparams_estimate_is_need_unknown rz p Hw) in He. injection He as He'.
+  unfold static_stream2_session, stream2_params. cbn [negb andb].
+  apply estimate_covers_reservation_l.
+  - exact Ha.
+  - unfold resolveMaxBlockSize. destruct (N.eqb_spec (p_maxBlockSize p) 0); [ discriminate | assumption ].
+  - intros H. specialize (Hl H). unfold ldm_user_ok, ldm_with_enable in *.
+    cbn [ldm_hashLog ldm_bucketSizeLog ldm_minMatch ldm_hashRateLog]. exact Hl.
+  - unfold session_need, stream2_params in He'. rewrite He'. exact Hsz.
+Qed.
+
+Lemma estimate_monotone_level_l :
+  forall l L s, level_covered l L -> s <= UNKNOWN ->
+    need_simple 0 l s <= estimateCCtxSize 0 L /\ need_compress2 0 l s <= estimateCCtxSize 0 L /\
+    need_stream 0 l s <= estimateCStreamSize 0 L.
+Proof.
+  intros l L s HC Hs.
+  destruct (estimate_covers_levels_oneshot 0 l L s sweep_oneshot_0 HC Hs) as [A B].
+  pose proof (estimate_covers_levels_stream 0 l L s sweep_stream_0 HC Hs) as C. tauto.
+Qed.
+
+(* ------------------------------------------------------------------ *)
+(* the hypotheses are satisfiable / the statements are not vacuous *)
+
+Example level_covered_example : level_covered 3 19 /\ level_covered 0 3 /\ level_covered 22 100.
+Proof. unfold level_covered. repeat split; lia. Qed.
+
+(* a concrete static session: level 5 (greedy, row finder, windowLog 21 at unknown size), context of exactly
+   ZSTD_estimateCCtxSize(5) bytes at address 0x7f0000001008, 100000-byte source: 15 reservations, none fails *)
+Example static_session_example :
+  match static_simple_session 0 139637976731656 (estimateCCtxSize 0 5) 5 100000 with
+  | SessDone w log => allocFailed w = false /\ length log = 15%nat
+  | _ => False
+  end.
+Proof. vm_compute. split; reflexivity. Qed.
+
+(* one byte less than what the reset needs: clean error *)
+Example static_session_too_small_example :
+  static_simple_session 0 139637976731656 (need_simple 0 5 100000 - 1) 5 100000 = SessMemError.
+Proof. vm_compute. reflexivity. Qed.
+
+Example dstream_example :
+  exists st, dstream_load_header (dstate0 0 (2 ^ 20) 0 true) (2 ^ 17) D_UNKNOWN = DsOk st (Some (131072 + (131072 + 262144 + 64)))
+  /\ dstream_load_header (dstate0 0 (2 ^ 20) 0 true) (2 ^ 20 + 1) D_UNKNOWN = DsErrWindow.
+Proof. eexists. split; vm_compute; reflexivity. Qed.
